@@ -6,6 +6,9 @@
 (*  Two     : the two-join-field configurations x (left, right) of theirs   *)
 (*  Sampled : NCfg configurations drawn from the whole option cross product *)
 (*            x PerCfg (left, right) draws each                             *)
+(*  Cross   : -l differs from -r, records carry an ordinary field named    *)
+(*            like the other side's join field; every pair of lists of at  *)
+(*            most MaxLen3 records                                          *)
 (* MainU, MainS and Two take every pair of lists in which at least one list *)
 (* is shorter than the longest length, and of the pairs of two longest      *)
 (* lists either all (NLong.. = 0) or NLongU / NLongS / NLong2 (per          *)
@@ -42,6 +45,7 @@ Init == \/ (On(1) /\ PartU)
         \/ (On(3) /\ (PartS \/ PartLongS))
         \/ (On(4) /\ \E c \in Configs2 : (Part2(c) \/ PartLong2(c)))
         \/ (On(5) /\ PartSampled)
+        \/ (On(6) /\ \E c \in Configs3 : \E l \in Lefts3(c, MaxLen3), r \in Rights3(c, MaxLen3) : x = CaseX(c, l, r))
 Next == UNCHANGED x
 Emit == PrintT(ToJson(x))
 =============================================================================
